@@ -70,6 +70,25 @@ def seed_conn(w):
     c.wires[1].disconnect_pin(u0.pins[lp.pins[1]])
 
 
+def seed_held_lists(w):
+    """two cables without wires, two ports without pins (one definition is instanced), a wired child; the caller
+    holds two list objects (empty) that it hands to the reorder setters and keeps."""
+    s = core.sdn()
+    n = s.Netlist(name="n")
+    lib = n.create_library(name="l")
+    leaf = lib.create_definition(name="leaf")
+    leaf.create_port(name="p0")
+    leaf.create_port(name="p1")
+    top = lib.create_definition(name="top")
+    top.create_cable(name="c0")
+    top.create_cable(name="c1")
+    top.create_child(name="u", reference=leaf)
+    n.top_instance = top
+    w.add(n)
+    w.held.append([])
+    w.held.append([])
+
+
 def seed_children(w):
     """two shape-compatible definitions and one incompatible; a connected child, an orphan
     instance, a second parent definition."""
